@@ -108,3 +108,15 @@ package xpush
 //@   before select#1 assert selwaits(s.closeQ)
 //@
 // ---- end generated wake-on-close contracts ----
+// ---- generated default contracts (tools/gen_default_contracts.py) ----
+//@ func NewProtocol
+//@   ensures cast("*socket", result).closed == false
+//@   ensures cast("*socket", result).closeQ != nil && !closed(cast("*socket", result).closeQ)
+//@   ensures cast("*socket", result).sendQ != nil && cap(cast("*socket", result).sendQ) == cast("*socket", result).sendQLen
+//@   ensures cast("*socket", result).noPeerQ != nil && !closed(cast("*socket", result).noPeerQ)
+//@   ensures cast("*socket", result).sendExpire == 0
+//@   ensures cast("*socket", result).sendQLen == 128
+//@   ensures cast("*socket", result).bestEffort == false
+//@   ensures cast("*socket", result).failNoPeers == false
+//@
+// ---- end generated default contracts ----
